@@ -239,9 +239,12 @@ def selftest(ctx, vh, hists):
     """Demonstrate the binding: corrupt logged fields of an accepted trace; TLC must reject exactly those lines."""
     d = ctx.scratch("selftest")
     hp = os.path.join(d, "hist.ndjson")
-    pick = [h for h in hists if len(h["steps"]) >= 3 and h["steps"][1]["op"] in ("Translate", "Scale", "Rotate", "Append", "FlipWinding")][:1]
-    if not pick:
-        raise core.Infra("self-test: no suitable history")
+    tri = {"topo": "triangle", "idx": [0, 1, 2], "attrs": [{"ar": 3, "id": 1, "data": [[0, 0, 0], [Q, 0, 0], [0, Q, 0]]}],
+           "mats": [], "exact": True, "fp": []}
+    pick = [{"nslots": 3, "steps": [
+        {"op": "New", "dst": 1, "src": [], "args": {"z": 0, "mesh": tri}},
+        {"op": "Translate", "dst": 2, "src": [1], "args": {"z": 0, "v": [Q, 0, 0]}},
+        {"op": "FlipWinding", "dst": 3, "src": [2], "args": {"z": 0}}]}]
     core.write_ndjson(hp, pick)
     tp = os.path.join(d, "trace.ndjson")
     core.run_vh(vh, ["mesh-exec", "-in", hp, "-out", tp])
